@@ -170,10 +170,14 @@ class FirstOrderMutator(Mutator):
             next_value = next(generator, None)
             assert next_value is not None, "Selected mutation could not be regenerated"
             new_mutation, mutant = next_value
-            yield [new_mutation], mutant
-            # Exhaust the generator so the operator restores the (shared) AST
-            # before the next mutation is applied.
-            assert next(generator, None) is None, "Mutation operator yielded more than once"
+            try:
+                yield [new_mutation], mutant
+                # Exhaust the generator so the operator restores the (shared) AST
+                # before the next mutation is applied.
+                assert next(generator, None) is None, "Mutation operator yielded more than once"
+            finally:
+                # Also restore the AST if this generator is closed at the yield.
+                generator.close()
 
     def mutation_count(  # noqa: D102
         self,
@@ -262,15 +266,20 @@ class HighOrderMutator(FirstOrderMutator):
             generators = []
             applied_mutations = []
             mutant = target_ast
-            for mutation in mutations_to_apply:
-                generator = mutation.operator.mutate(mutant, module, mutation)
-                next_value = next(generator, None)
-                assert next_value is not None
-                new_mutation, mutant = next_value
-                applied_mutations.append(new_mutation)
-                generators.append(generator)
-            yield applied_mutations, mutant
-            self._finish_generators(generators)
+            try:
+                for mutation in mutations_to_apply:
+                    generator = mutation.operator.mutate(mutant, module, mutation)
+                    next_value = next(generator, None)
+                    assert next_value is not None
+                    new_mutation, mutant = next_value
+                    applied_mutations.append(new_mutation)
+                    generators.append(generator)
+                yield applied_mutations, mutant
+                self._finish_generators(generators)
+            finally:
+                # Also restore the AST if this generator is closed at the yield.
+                for generator in reversed(generators):
+                    generator.close()
 
     def _generate_all_mutations(
         self,
